@@ -266,7 +266,10 @@ class P:
         return lhs
     def range_expr(self, nostruct):
         if self.at("..") or self.at("..="):
-            self.fail("prefix range")
+            incl = self.peek()[1] == "..="; self.i += 1
+            t = self.peek()
+            if t[0] == "eof" or (t[0] == "p" and t[1] in (")", "]", "}", ";", ",")): return ("rangefull",)
+            return ("range", ("num", "0", None), self.bin(0, nostruct), incl)
         lhs = self.bin(0, nostruct)
         if self.at("..") or self.at("..="):
             incl = self.peek()[1] == "..="; self.i += 1
@@ -331,7 +334,15 @@ class P:
     def block(self):
         self.expect("{"); stmts = []; tail = None
         while not self.at("}"):
-            self.skip_attrs()
+            j0 = self.i; self.skip_attrs()
+            raw = " ".join(x[1] if isinstance(x[1], str) else x[1][0] for x in self.t[j0:self.i])
+            if re.search(r"cfg \( (not \( unix \)|windows|target_os = \"macos\"|target_os = \"windows\"|nijaru_sy_verif)", raw):
+                # a statement compiled out on this platform (Linux): parse it and drop it
+                if self.at("let"):
+                    while not self.eat(";"): self.i += 1
+                else:
+                    self.expr(); self.eat(";")
+                continue
             if self.eat(";"): continue
             if self.at("use"):
                 while not self.eat(";"): self.i += 1
@@ -570,10 +581,13 @@ class P:
                     # remember the failure under the function's name; raised only if the function is requested
                     self.i = j; name = self.ident()
                     key = (owner + "::" if owner else "") + name
-                    out.setdefault(key, {"kind": "error", "msg": str(e)})
                     while not (self.at("{") or self.at(";")): self.i += 1
+                    b0 = self.i
                     if self.at("{"): self.skip_balanced("{", "}")
                     else: self.i += 1
+                    # the body's tokens are kept: a fragment (`frag` / `closure` item) can still be cut out of a function
+                    # that uses syntax outside the subset somewhere else
+                    out.setdefault(key, {"kind": "error", "msg": str(e), "owner": owner, "toks": self.t[b0:self.i], "fname": self.fname})
                 continue
             if self.eat("enum"):
                 j = self.i
@@ -945,6 +959,9 @@ class Emit:
             x = next((self.externs["_".join(path[-k:])] for k in range(len(path), 0, -1) if "_".join(path[-k:]) in self.externs), None)
             return isinstance(x, dict) and x.get("eff", False)
         if e[0] == "mcall":
+            for key, (ln, it) in self.local_fns.items():
+                if it["name"] == e[2] and it["owner"] and len(it["params"]) == len(e[3]) and e[1] == ("path", ["self"]) and it["owner"] == self.cur_owner:
+                    return ln in self.fns_using_ext
             if e[2] in self.ext_methods or f"{e[2]}/{len(e[3])}" in self.ext_methods: return True
             for key, (ln, it) in self.local_fns.items():
                 if it["name"] == e[2] and it["owner"] and ln in self.fns_using_ext and len(it["params"]) == len(e[3]): return True
@@ -984,6 +1001,8 @@ class Emit:
                 x = self.externs[nm]
                 eff = isinstance(x, dict) and x.get("eff", False); res = isinstance(x, dict) and x.get("result", False)
                 return ("(" + " ".join([f"ext.{lname(nm)}"] + (a or ["()"])) + ")", eff, res)
+            if len(path) == 1 and (path[0][0].islower() or path[0][0] == "_") and path[0] in getattr(self, "local_closures", set()):
+                return ("(" + " ".join([lname(path[0])] + a) + ")", False, False)      # a closure bound by an earlier `let`
             cm = self.unit.get("ctors", {})
             if "::".join(path[-2:]) in cm:
                 return ("(" + " ".join([cm["::".join(path[-2:])]] + a) + ")", False, False)
@@ -995,11 +1014,15 @@ class Emit:
     def _mcall(self, e):
         recv, m, args = e[1], e[2], e[3]
         if (m in ERASED_METHODS and not args) or m in ("map_err", "with_context", "context"): return (self.ex(recv), False, False)
-        if f"{m}/{len(args)}" in self.ext_methods or m in self.ext_methods:
-            em = self.ext_methods.get(f"{m}/{len(args)}", self.ext_methods.get(m)); self.cur_uses_ext = True
-            return ("(" + " ".join([f"ext.{em['name']}", self.atom(recv)] + [self.atom(x) for x in args]) + ")", True, em.get("result", False))
         # method of a type translated in this unit (non-mutating)
-        for exact in (True, False):
+        for exact in (True, "ext", False):
+            if exact == "ext":
+                # operations of the world, by method name and arity (after the methods of `self`'s own type, before the
+                # methods of other translated types)
+                if f"{m}/{len(args)}" in self.ext_methods or m in self.ext_methods:
+                    em = self.ext_methods.get(f"{m}/{len(args)}", self.ext_methods.get(m)); self.cur_uses_ext = True
+                    return ("(" + " ".join([f"ext.{em['name']}", self.atom(recv)] + [self.atom(x) for x in args]) + ")", True, em.get("result", False))
+                continue
             for key, (ln, it) in self.local_fns.items():
                 if it["name"] == m and it["self"] in ("ref", "own") and it["owner"] and len(it["params"]) == len(args) \
                    and ((recv == ("path", ["self"]) and it["owner"] == self.cur_owner) if exact
@@ -1211,6 +1234,9 @@ class Emit:
             if init is None: raise Unsupported("let without initialiser")
             tys = f" : {self.ty(ty)}" if ty is not None else ""
             pp = self.pat(p)
+            if init[0] == "closure" and p[0] == "bind":
+                if not hasattr(self, "local_closures"): self.local_closures = set()
+                self.local_closures.add(p[1])
             kw = "let mut" if mut else "let"
             if init[0] in ("if", "iflet", "match", "block") and not self.pure_expr(init):
                 L = [ind + f"{kw} {pp}{tys} ←"]
@@ -1390,6 +1416,31 @@ def find_closure(e):
             if c is not None: return c
     return None
 
+def find_fragment_in_tokens(it, sel):
+    """fallback for a function the parser cannot read as a whole: find the selected `let` / `if` by scanning its tokens and
+    parse only that expression"""
+    kind, name = sel.split(":")
+    toks = list(it["toks"]) + [("eof", "", 0)]
+    found = []
+    for i, t in enumerate(toks):
+        if kind == "let" and t[:2] == ("id", "let"):
+            k = i + 1
+            if toks[k][:2] == ("id", "mut"): k += 1
+            if toks[k][:2] != ("id", name): continue
+            sub = P(toks, it["fname"]); sub.i = k + 1
+            try:
+                if sub.eat(":"): sub.ty()
+                if not sub.eat("="): continue
+                found.append(sub.expr())
+            except Unsupported: continue
+        if kind == "if" and t[:2] == ("id", "if") and toks[i + 1][:2] != ("id", "let"):
+            sub = P(toks, it["fname"]); sub.i = i + 1
+            try: c = sub.expr(nostruct=True)
+            except Unsupported: continue
+            if mentions(c, name): found.append(c)
+    if kind == "let": return found[0] if len(found) == 1 else None
+    return found[0] if found else None
+
 def find_fragment(body, sel):
     """`let:NAME` = the initialiser of the unique `let NAME = …;` in the function;
        `if:NAME`  = the condition of the first `if` (source order) whose condition mentions NAME."""
@@ -1427,8 +1478,7 @@ def translate_unit(unit, repo):
             _, f, key, sel, ln, params, rty = ent
             its = items_of(f)
             if key not in its: raise Unsupported(f"{f}: item `{key}` not found")
-            if its[key]["kind"] == "error": raise Unsupported(f"{f}: `{key}`: {its[key]['msg']}")
-            e = find_fragment(its[key]["body"], sel)
+            e = find_fragment_in_tokens(its[key], sel) if its[key]["kind"] == "error" else find_fragment(its[key]["body"], sel)
             c = find_closure(e) if e is not None else None
             if c is None: raise Unsupported(f"{f}: `{key}`: no closure in fragment `{sel}`")
             decls.append(("closure", key + " @ " + sel, ln, {"closure": c, "params": params, "rty": rty, "owner": its[key]["owner"]}, f))
@@ -1438,8 +1488,7 @@ def translate_unit(unit, repo):
             _, f, key, sel, ln, params, rty = ent
             its = items_of(f)
             if key not in its: raise Unsupported(f"{f}: item `{key}` not found")
-            if its[key]["kind"] == "error": raise Unsupported(f"{f}: `{key}`: {its[key]['msg']}")
-            e = find_fragment(its[key]["body"], sel)
+            e = find_fragment_in_tokens(its[key], sel) if its[key]["kind"] == "error" else find_fragment(its[key]["body"], sel)
             if e is None: raise Unsupported(f"{f}: `{key}`: fragment `{sel}` not found (or not unique)")
             decls.append(("frag", key + " @ " + sel, ln, {"expr": e, "params": params, "rty": rty, "owner": its[key]["owner"]}, f))
             continue
